@@ -10,8 +10,10 @@ pub const IDS6: [u64; 6] = [0, 1, 2, 4, 5, LAST];
 /// thorough tier: one more id inside the z1 block (5^7 maps)
 pub const IDS7: [u64; 7] = [0, 1, 2, 3, 4, 5, LAST];
 
+/// four related contents: "A", NUL, "A"+NUL (= the concatenation of the first two, which are its proper prefix
+/// and proper suffix, and "A" plus a trailing zero byte) and "A"+0x01 (same length, different last byte)
 pub fn contents4() -> [Vec<u8>; 4] {
-    [vec![0x41], vec![0x42], vec![0x41, 0x00], vec![0x41, 0x01]]
+    [vec![0x41], vec![0x00], vec![0x41, 0x00], vec![0x41, 0x01]]
 }
 
 /// all partial maps from the first `nids` ids of IDS6 into contents4 (5^nids archives)
@@ -138,6 +140,15 @@ pub fn meta_alphabet() -> Vec<(&'static str, Map<String, Value>)> {
     for (name, n) in [("2047B-string", 2047 - 8), ("4097B-string", 4097 - 8), ("9KiB-string", 9 * 1024), ("70KiB-string", 70 * 1024)] {
         let mut m = Map::new();
         m.insert("s".into(), Value::String("x".repeat(n)));
+        out.push((name, m));
+    }
+    // text made of 2-, 3- and 4-byte characters (9 bytes per cycle, co-prime with every power-of-two buffer size, and
+    // shifted by a 1-byte prefix in the second key): some character straddles every border at which a reader that
+    // decodes text piecewise could cut
+    for (name, n) in [("multibyte-9KiB", 1024usize), ("multibyte-70KiB", 8 * 1024)] {
+        let mut m = Map::new();
+        m.insert("d\u{e9}".into(), Value::String("\u{e9}\u{20ac}\u{1F600}".repeat(n)));
+        m.insert("e".into(), Value::String(format!("x{}", "\u{1F600}\u{e9}".repeat(n))));
         out.push((name, m));
     }
     let mut m = Map::new();
